@@ -259,6 +259,9 @@ func (env *SpecEnv) ident(name string) SV {
 	case "ChainID":
 		e.g().DeclFun("ChainID", nil, sortStr)
 		return SV{t: "ChainID", sort: "Str"}
+	case "BlockTime": // unix time of the block header
+		e.g().DeclFun("BlockTime", nil, "Int")
+		return SV{t: "BlockTime", sort: "Int"}
 	case "BondDenom": // the staking module's bond denomination (a parameter the repo never writes)
 		e.g().DeclFun("BondDenom", nil, sortStr)
 		return SV{t: "BondDenom", sort: "Str"}
